@@ -637,9 +637,107 @@ func usesPkgVar(info *types.Info, n ast.Node) bool {
 	return found
 }
 
+// isPkgVarIdent reports whether the identifier denotes a package-level variable.
+func isPkgVarIdent(info *types.Info, id *ast.Ident) bool {
+	v, ok := info.Uses[id].(*types.Var)
+	return ok && !v.IsField() && v.Pkg() != nil && v.Parent() == v.Pkg().Scope()
+}
+
+// rootIdent returns the identifier at the root of x.f, x[i], (*x) chains.
+func rootIdent(e ast.Expr) *ast.Ident {
+	for {
+		switch x := e.(type) {
+		case *ast.Ident:
+			return x
+		case *ast.SelectorExpr:
+			e = x.X
+		case *ast.IndexExpr:
+			e = x.X
+		case *ast.StarExpr:
+			e = x.X
+		case *ast.ParenExpr:
+			e = x.X
+		default:
+			return nil
+		}
+	}
+}
+
+// passesPkgStorage reports whether the call hands package-level storage to its
+// callee by reference: g[i:j] of a package-level array or slice, &g / &g.f /
+// &g[i], or a package-level variable of slice, map or pointer type. The callee
+// (often not rewritten: strconv.AppendInt, copy, append, binary.PutUvarint,
+// (*bytes.Buffer).Write ...) may write it, so the point right after the call is
+// an interesting scheduling point.
+func passesPkgStorage(info *types.Info, call *ast.CallExpr) bool {
+	exprs := append([]ast.Expr{}, call.Args...)
+	if sel, ok := call.Fun.(*ast.SelectorExpr); ok {
+		exprs = append(exprs, sel.X) // method receiver
+	}
+	for _, a := range exprs {
+		switch x := a.(type) {
+		case *ast.SliceExpr:
+			if id := rootIdent(x.X); id != nil && isPkgVarIdent(info, id) {
+				return true
+			}
+		case *ast.UnaryExpr:
+			if x.Op == token.AND {
+				if id := rootIdent(x.X); id != nil && isPkgVarIdent(info, id) {
+					return true
+				}
+			}
+		default:
+			if id := rootIdent(a); id != nil && isPkgVarIdent(info, id) {
+				if tv, ok := info.Types[a]; ok && tv.Type != nil {
+					switch tv.Type.Underlying().(type) {
+					case *types.Slice, *types.Map, *types.Pointer:
+						return true
+					}
+				}
+			}
+		}
+	}
+	return false
+}
+
 func passGYield(p *packages.Package, file *ast.File, f *fileRW) {
 	info := p.TypesInfo
 	fn := ""
+	// calls that pass package-level storage by reference and whose single result
+	// is an argument of another call: outer(inner(g[:0], v)) becomes
+	// outer(verifsim.After(inner(g[:0], v), site)) - a yield between the two calls
+	wrapped := map[*ast.CallExpr]bool{}
+	ast.Inspect(file, func(x ast.Node) bool {
+		if d, ok := x.(*ast.FuncDecl); ok {
+			fn = d.Name.Name
+		}
+		outer, ok := x.(*ast.CallExpr)
+		if !ok {
+			return true
+		}
+		for _, a := range outer.Args {
+			in, ok := a.(*ast.CallExpr)
+			if !ok || wrapped[in] || !passesPkgStorage(info, in) {
+				continue
+			}
+			tv, ok := info.Types[in]
+			if !ok || tv.Type == nil || tv.IsType() {
+				continue
+			}
+			if _, isTuple := tv.Type.(*types.Tuple); isTuple {
+				continue
+			}
+			if b, ok := tv.Type.Underlying().(*types.Basic); ok && b.Info()&types.IsUntyped != 0 {
+				continue
+			}
+			wrapped[in] = true
+			id := newSite(p, "after_call_with_global_ref", in.Pos(), fn)
+			f.ins(in.Pos(), "verifsim.After(")
+			f.ins(in.End(), fmt.Sprintf(", %d)", id))
+		}
+		return true
+	})
+	fn = ""
 	doList := func(list []ast.Stmt) {
 		for _, st := range list {
 			inner := st
@@ -687,6 +785,28 @@ func passGYield(p *packages.Package, file *ast.File, f *fileRW) {
 				}
 				if writesPkgVar(info, h) {
 					wr = true
+				}
+			}
+			switch y := inner.(type) {
+			case *ast.ExprStmt, *ast.AssignStmt:
+				after := false
+				ast.Inspect(y, func(n ast.Node) bool {
+					switch c := n.(type) {
+					case *ast.FuncLit:
+						return false
+					case *ast.CallExpr:
+						if id, ok := c.Fun.(*ast.Ident); ok && id.Name == "panic" {
+							return false
+						}
+						if passesPkgStorage(info, c) {
+							after = true
+						}
+					}
+					return true
+				})
+				if after {
+					id := newSite(p, "after_stmt_with_global_ref", st.End(), fn)
+					f.ins(st.End(), fmt.Sprintf("\nverifsim.YieldW(%d)", id))
 				}
 			}
 			if wr {
